@@ -609,6 +609,54 @@ fn c17_run(n: &NegCase, sink: &mut Sink) -> (Verdict, Option<u64>, Value) {
     (Verdict::Ok, Some(hash64(n)), json!({"case": {"accept_encoding": n.accept_encoding.as_ref().map(|v| crate::util::bytes_to_json(v)), "level": n.level, "chunk": n.chunk}, "want_gzip": want_gzip, "runs": rendered.into_iter().take(2).collect::<Vec<_>>()}))
 }
 
+/// Many bodies alive at the same time (a server under load): every one must still have the coding
+/// its header announces.
+fn c17_many_live(k: usize, sink: &mut Sink) {
+    use crate::e2::build;
+    let n = [70usize, 300, 1000][k];
+    if !sink.admit() {
+        return;
+    }
+    let desc = json!({"many_live_bodies": n});
+    let plain = payload(Payload::Text, 0, 200);
+    let r = crate::util::catch(|| -> Option<String> {
+        let mut live = Vec::new();
+        for i in 0..n {
+            let gz = i % 3 != 2;
+            let case = StreamCase { method: "GET".into(), accept_encoding: if gz { Some(b"gzip".to_vec()) } else { None }, chunk: 4096, gzip_level: Some(1 + (i % 9) as u32), via_parts: i % 2 == 0, payload: Payload::Text, ops: vec![], extra_polls: 0 };
+            match build(&case) {
+                Some((resp, Some(w))) => live.push((gz, resp, w)),
+                _ => return Some("build returned no writer".into()),
+            }
+        }
+        for (i, (gz, resp, mut w)) in live.into_iter().enumerate() {
+            let says_gzip = resp.headers().get("content-encoding").is_some_and(|v| v.as_bytes() == b"gzip");
+            if says_gzip != gz {
+                return Some(format!("body {} of {} live ones: Content-Encoding: gzip present = {}, negotiated = {}", i, n, says_gzip, gz));
+            }
+            if w.write_all(&plain).is_err() {
+                return Some(format!("body {}: write failed", i));
+            }
+            drop(w);
+            let d = crate::bodymon::drain(resp.into_body(), u64::MAX, 0);
+            let ok = if says_gzip { gz::parse_member(&d.data).map(|p| p == plain).unwrap_or(false) } else { d.data == plain };
+            if !ok {
+                return Some(format!("body {} of {} live ones: header says {}, body ({} bytes, starts {:?}) is not that", i, n, if says_gzip { "gzip" } else { "identity" }, d.data.len(), &d.data[..d.data.len().min(4)]));
+            }
+        }
+        None
+    });
+    let v = match r {
+        Err(p) => Verdict::viol(format!("panic|many-live@{}", norm_loc(&p)), p),
+        Ok(Some(m)) => Verdict::viol("coding-mismatch|many-live-bodies", m),
+        Ok(None) => {
+            sink.add("bodies_verified_while_many_live", n as u64);
+            Verdict::Ok
+        }
+    };
+    sink.record(v, Some(hash64(&("many", n))), &|| desc.clone());
+}
+
 pub fn c17_accept_encodings() -> Vec<Option<Vec<u8>>> {
     let codings = ["gzip", "identity", "*", "br", "deflate", "x-gzip"];
     let weights = ["", ";q=0", ";q=0.", ";q=0.0", ";q=0.000", ";q=0.001", ";q=0.5", ";q=0.999", ";q=1", ";q=1.", ";q=1.000"];
@@ -640,15 +688,19 @@ impl Prop for C17 {
         "exploration"
     }
     fn rule(&self, _: &Ctx) -> String {
-        "full product: Accept-Encoding {absent, empty, invalid, all 66 single elements (6 codings x 11 weights), all 225 pairs over {gzip, identity, *} x 5 weights} x gzip level {default, 0..9} x chunk size {1, 7, 4096}; each configuration is built for GET, POST and HEAD, as Request and as Parts (6 builds), 300 bytes written, body drained. Non-trivial = distinct configuration whose Vary / Content-Encoding were compared with should_gzip && level > 0, whose body coding was verified against the header (gzip member parser / verbatim bytes), and whose HEAD/Parts variants were compared".into()
+        "full product: Accept-Encoding {absent, empty, invalid, all 66 single elements (6 codings x 11 weights), all 225 pairs over {gzip, identity, *} x 5 weights} x gzip level {default, 0..9} x chunk size {1, 7, 4096}; each configuration is built for GET, POST and HEAD, as Request and as Parts (6 builds), 300 bytes written, body drained; plus 70 / 300 / 1000 bodies alive at the same time, each then written, drained and verified. Non-trivial = distinct configuration whose Vary / Content-Encoding were compared with should_gzip && level > 0, whose body coding was verified against the header (gzip member parser / verbatim bytes), and whose HEAD/Parts variants were compared".into()
     }
     fn n_blocks(&self, ctx: &Ctx) -> usize {
-        if ctx.leg.slow() { 4 } else { 11 * 3 }
+        if ctx.leg.slow() { 4 } else { 11 * 3 + 3 }
     }
     fn exhaustive(&self, _: &Ctx) -> bool {
         true
     }
     fn run_block(&self, b: usize, sink: &mut Sink) {
+        if b >= 11 * 3 {
+            c17_many_live(b - 11 * 3, sink);
+            return;
+        }
         let levels: [Option<u32>; 11] = [None, Some(0), Some(1), Some(2), Some(3), Some(4), Some(5), Some(6), Some(7), Some(8), Some(9)];
         let level = levels[b % 11];
         let chunk = [1usize, 7, 4096][(b / 11) % 3];
@@ -679,7 +731,7 @@ impl Prop for C17 {
         sink.record(v, nt, &|| rendered.clone());
     }
     fn floors(&self, _: &Ctx) -> Vec<(&'static str, u64)> {
-        vec![("configs_gzip", 1000), ("configs_identity", 1000), ("gzip_bodies_verified", 1000), ("identity_bodies_verified", 1000)]
+        vec![("configs_gzip", 1000), ("configs_identity", 1000), ("gzip_bodies_verified", 1000), ("identity_bodies_verified", 1000), ("bodies_verified_while_many_live", 1000)]
     }
     fn assumptions(&self) -> Vec<String> {
         vec!["the negotiation decision itself is taken from the real should_gzip (the statement says 'as should_gzip decides'); C16 judges that function against the RFC model".into()]
